@@ -18,6 +18,7 @@ import (
 	_ "github.com/nyaruka/goflow/flows/routers/cases"
 	"pgregory.net/rapid"
 
+	"verif/harness/internal/bound"
 	"verif/harness/internal/gen"
 	"verif/harness/internal/guard"
 	"verif/harness/internal/harn"
@@ -28,6 +29,7 @@ func TestMain(m *testing.M) {
 	// several functions and router tests fill a missing time of day from the clock (has_date, datetime with time fill...):
 	// an expression and its printed form are evaluated at the same frozen instant
 	dates.SetNowFunc(dates.NewFixedNow(time.Date(2024, 3, 10, 10, 30, 15, 123456789, time.UTC)))
+	bound.ResultSizes() // repeat(x, 2147483647) and the like are legitimately slow: excluded and counted, as in C04
 	stats.Main(m, "C11")
 }
 
@@ -195,7 +197,7 @@ func scaleFinding(src string, f *harn.Failure) string {
 		return ""
 	}
 	switch f.Clause {
-	case "same-value", "same-template-output", "identity-same-output", "rename-same-output":
+	case "same-value", "same-template-output", "identity-same-output", "rename-same-output", "migration-rename-same-output":
 		if strings.Contains(src, "^") && trailingZeroLiteral.MatchString(src) {
 			return "C11-number-literal-scale"
 		}
